@@ -650,6 +650,13 @@ func c06ring(c *core.Ctx) {
 			}
 		case 4:
 			n := r.Range(-1, 9)
+			switch r.Intn(8) {
+			case 0: // many laps
+				n = r.Range(10, 700)
+			case 1: // whole laps: an exact multiple of the ring's length (removes nothing) and its neighbours
+				n = h.s.Len()*r.Range(1, 80) + r.Range(-1, 1)
+				c.Count("ring_unlink_whole_laps", 1)
+			}
 			name = fmt.Sprintf("r%d.Unlink(%d)", id, n)
 			a, b := idG(h.g.Unlink(n)), idS(h.s.Unlink(n))
 			c.Count("ring_unlink", 1)
